@@ -7,6 +7,7 @@ import (
 	"strings"
 	"sync"
 
+	"verifmc/det"
 	"verifmc/proto"
 	"verifmc/ref/cbor"
 	"verifmc/schednet"
@@ -19,9 +20,14 @@ type fault struct {
 	To   proto.ID // 0 = every recipient of that message, altered identically (uniform broadcast tampering)
 	Path string   // leaf/container path inside the payload tree ("" for whole-message operators)
 	Op   string
+	K    int64 // splice: index of the deviator's random draw that is made differently
+	R    int   // splice: from this round of the deviator on, its messages come from the alternative run
 }
 
 func (f fault) String() string {
+	if f.Op == "splice" {
+		return fmt.Sprintf("splice: party %d sends, from its round %d on, the messages of its own run in which its random draw #%d was different", f.From, f.R, f.K)
+	}
 	to := "all"
 	if f.To != 0 {
 		to = fmt.Sprint(f.To)
@@ -38,6 +44,19 @@ type harvest struct {
 	trace  []*schednet.Msg
 	byKey  map[string]*schednet.Msg
 	faults []fault
+	rounds map[proto.ID][]string // per sender: its correlation ids in send order
+	calls  map[proto.ID]int64    // per party: number of Read calls on its own random stream
+	labels map[proto.ID]string   // per party: label of its random stream
+}
+
+// roundOf returns the index of cid among the sender's exchanges (-1 if unknown).
+func (h *harvest) roundOf(from proto.ID, cid string) int {
+	for i, c := range h.rounds[from] {
+		if c == cid {
+			return i
+		}
+	}
+	return -1
 }
 
 var (
@@ -54,15 +73,46 @@ func getHarvest(c *proto.Case, seed int64, deviators []proto.ID) *harvest {
 		return h
 	}
 	net := schednet.New(c.IDs...)
+	det.Record()
 	e := c.Run(zeroChooser{}, net, seed)
+	streams := det.Recorded()
 	for id, p := range e.Parties {
 		if !p.OK || p.Bad != "" {
 			panic(fmt.Sprintf("harvest: honest run of %s failed at party %d: err=%v bad=%s panic=%s", c.Name, id, p.Err, p.Bad, p.Panic))
 		}
 	}
 	// canonical order: Router.SendTo ranges over a Go map, so the order of Send calls is not deterministic
+	h := &harvest{byKey: map[string]*schednet.Msg{}, rounds: map[proto.ID][]string{}, calls: map[proto.ID]int64{}, labels: map[proto.ID]string{}}
+	{
+		first := map[proto.ID]map[string]int{}
+		for _, m := range net.Trace {
+			if first[m.From] == nil {
+				first[m.From] = map[string]int{}
+			}
+			if _, ok := first[m.From][m.Cid]; !ok {
+				first[m.From][m.Cid] = m.Seq
+			}
+		}
+		for from, cs := range first {
+			var cids []string
+			for cid := range cs {
+				cids = append(cids, cid)
+			}
+			sort.Slice(cids, func(i, j int) bool { return cs[cids[i]] < cs[cids[j]] })
+			h.rounds[from] = cids
+		}
+		for _, id := range c.IDs {
+			suffix := fmt.Sprintf("/%d", id)
+			for _, st := range streams {
+				if st.Seed == seed && strings.HasSuffix(st.Label, suffix) {
+					h.calls[id] += st.Calls
+					h.labels[id] = st.Label
+				}
+			}
+		}
+	}
 	sort.Slice(net.Trace, func(i, j int) bool { return net.Trace[i].Key() < net.Trace[j].Key() })
-	h := &harvest{trace: net.Trace, byKey: map[string]*schednet.Msg{}}
+	h.trace = net.Trace
 	for _, m := range net.Trace {
 		h.byKey[m.Key()] = m
 	}
@@ -125,23 +175,61 @@ func getHarvest(c *proto.Case, seed int64, deviators []proto.ID) *harvest {
 			}
 			for _, r := range cbor.Walk(tr) {
 				for _, op := range opsFor(r, indexAlphabetOK(r.Path)) {
-					h.faults = append(h.faults, fault{s.cid, s.from, to, r.Path, op})
+					h.faults = append(h.faults, fault{Cid: s.cid, From: s.from, To: to, Path: r.Path, Op: op})
 				}
 				if r.Parent != nil && r.Parent.Kind == cbor.Map && indexAlphabetOK(r.Path) {
-					h.faults = append(h.faults, fault{s.cid, s.from, to, r.Path, "drop-field"})
+					h.faults = append(h.faults, fault{Cid: s.cid, From: s.from, To: to, Path: r.Path, Op: "drop-field"})
 				}
 			}
-			h.faults = append(h.faults, fault{s.cid, s.from, to, "", "drop"})
-			h.faults = append(h.faults, fault{s.cid, s.from, to, "", "replay-other-sender"})
-			h.faults = append(h.faults, fault{s.cid, s.from, to, "", "replay-other-session"})
+			h.faults = append(h.faults, fault{Cid: s.cid, From: s.from, To: to, Path: "", Op: "drop"})
+			h.faults = append(h.faults, fault{Cid: s.cid, From: s.from, To: to, Path: "", Op: "replay-other-sender"})
+			h.faults = append(h.faults, fault{Cid: s.cid, From: s.from, To: to, Path: "", Op: "replay-other-session"})
 			if !uniform && len(ms) > 1 {
-				h.faults = append(h.faults, fault{s.cid, s.from, to, "", "swap-recipient"})
+				h.faults = append(h.faults, fault{Cid: s.cid, From: s.from, To: to, Path: "", Op: "swap-recipient"})
+			}
+		}
+	}
+	// splice faults: one per (deviator, random draw, round from which the alternative run's messages are sent)
+	if !noSplice {
+		for _, d := range deviators {
+			for k := int64(0); k < h.calls[d]; k++ {
+				for r := 1; r < len(h.rounds[d]); r++ {
+					h.faults = append(h.faults, fault{From: d, Op: "splice", K: k, R: r})
+				}
 			}
 		}
 	}
 	harvests[k] = h
 	return h
 }
+
+var noSplice = false
+
+// getSplice runs the case with party d's random draw #k made differently (everything else identical) and returns
+// that run's messages by key.
+func getSplice(c *proto.Case, seed int64, h *harvest, d proto.ID, k int64) map[string]*schednet.Msg {
+	harvestMu.Lock()
+	defer harvestMu.Unlock()
+	key := fmt.Sprintf("%s/%d/splice/%d/%d", c.Name, seed, d, k)
+	if m, ok := splices[key]; ok {
+		return m
+	}
+	det.SetFlip(seed, h.labels[d], k)
+	net := schednet.New(c.IDs...)
+	func() {
+		defer func() { _ = recover() }() // the alternative run may legitimately fail; its messages up to there are what we need
+		c.Run(zeroChooser{}, net, seed)
+	}()
+	det.ClearFlips()
+	m := map[string]*schednet.Msg{}
+	for _, t := range net.Trace {
+		m[t.Key()] = t
+	}
+	splices[key] = m
+	return m
+}
+
+var splices = map[string]map[string]*schednet.Msg{}
 
 var idxRe = regexp.MustCompile(`\[(\d+)\]`)
 
